@@ -213,6 +213,10 @@ def check(mg, kind, dt, via, tmpdir):
         fn = os.path.join(tmpdir, "w_%s_%s.bin" % (kind, dt))
         with open(fn, "wb") as f: mg.save(f, t)
         with open(fn, "rb") as f: loaded = mg.load(f)
+    elif via == "bytesio/no_autodiff":
+        # saved and loaded while graph tracking is suspended
+        with mg.no_autodiff:
+            f = io.BytesIO(); mg.save(f, t); f.seek(0); loaded = mg.load(f)
     else:
         f = io.BytesIO(); mg.save(f, t); f.seek(0); loaded = mg.load(f)
     if not np.array_equal(t.data, d0) or t.creator is not c0 or set(t._ops) != o0: bad.append("save altered the tensor")
@@ -232,7 +236,7 @@ def _replay(kind):
 bad = []
 with tempfile.TemporaryDirectory() as d:
     for dt in ("float64", "float32", "float16"):
-        for via in ("path", "path.npz", "bytesio", "bytesio-offset", "open-file"):
+        for via in ("path", "path.npz", "bytesio", "bytesio-offset", "open-file", "bytesio/no_autodiff"):
             try: b = check(mg, %r, dt, via, d)
             except Exception as e: b = ["raised %%s: %%s" %% (type(e).__name__, str(e)[:80])]
             if b: bad.append((dt, via, b))
@@ -253,7 +257,7 @@ def run_files(spec, tier, mg):
     with tempfile.TemporaryDirectory() as d:
         for kind in KINDS:
             for dt in ("bool", "int8", "int64", "float16", "float32", "float64"):
-                for via in ("path", "path.npz", "bytesio", "bytesio-offset", "open-file"):
+                for via in ("path", "path.npz", "bytesio", "bytesio-offset", "open-file", "bytesio/no_autodiff"):
                     lib.reset_state()
                     try:
                         b = ns["check"](mg, kind, dt, via, d)
